@@ -82,6 +82,11 @@ type vals struct {
 	U32 uint32
 	U64 uint64
 	F32 float32
+	NS  *string
+	// hostile family only (their own expressions take part in the verdict)
+	Orders   []*order
+	OrderMap map[string]*order
+	PPP      ***inner
 }
 
 var prioGroups = [][]string{{"||"}, {"&&"}, {"==", "!="}, {"<", "<=", ">", ">="}, {"+", "-"}, {"*", "/", "%"}}
@@ -141,6 +146,12 @@ var boolLeaves = []*node{
 	{lit: "!!(P)$", k: kBool, leaf: func(v *vals) interface{} { return !(v.P == nil || *v.P == 0) }},
 	{lit: "!(T)$", k: kBool, leaf: func(v *vals) interface{} { return !v.T }},
 	{lit: "!!(T)$", k: kBool, leaf: func(v *vals) interface{} { return v.T }},
+	// regexp on what is not a string (a nil *string, a number) does not match; "!regexp" is
+	// the negation of that like of any other result
+	{lit: "regexp('^a',(NS)$)", k: kBool, leaf: func(v *vals) interface{} { return v.NS != nil && strings.HasPrefix(*v.NS, "a") }},
+	{lit: "!regexp('^a',(NS)$)", k: kBool, leaf: func(v *vals) interface{} { return !(v.NS != nil && strings.HasPrefix(*v.NS, "a")) }},
+	{lit: "!regexp('^1',(A)$)", k: kBool, leaf: func(v *vals) interface{} { return true }},
+	{lit: "regexp('^1',(A)$)", k: kBool, leaf: func(v *vals) interface{} { return false }},
 	{lit: "!$", k: kBool, leaf: func(v *vals) interface{} { return v.X == 0 }},
 	{lit: "!!$", k: kBool, leaf: func(v *vals) interface{} { return v.X != 0 }},
 }
@@ -338,6 +349,14 @@ func (n *node) eval(v *vals, st *evalState) interface{} {
 
 type inner struct{ Y int }
 
+// order / addr: an element type with an expression of its own that reaches through a
+// pointer (what a JSON array of objects binds to; an element may be null)
+type addr struct{ Zip string }
+type order struct {
+	Ship    *addr
+	Express bool `vd:"len((Ship.Zip)$)>0 || !$"`
+}
+
 // box is comparable as a type, but comparing two of them panics when the interface holds a
 // slice (what a JSON array binds to)
 type box struct{ V interface{} }
@@ -371,6 +390,10 @@ func buildType(expr string) reflect.Type {
 		{Name: "U32", Type: reflect.TypeOf(uint32(0))},
 		{Name: "U64", Type: reflect.TypeOf(uint64(0))},
 		{Name: "F32", Type: reflect.TypeOf(float32(0))},
+		{Name: "NS", Type: reflect.TypeOf((*string)(nil))},
+		{Name: "Orders", Type: reflect.TypeOf([]*order(nil))},
+		{Name: "OrderMap", Type: reflect.TypeOf(map[string]*order(nil))},
+		{Name: "PPP", Type: reflect.TypeOf((***inner)(nil))},
 	})
 }
 
@@ -408,6 +431,18 @@ func setVals(v reflect.Value, x *vals) {
 	v.Elem().Field(18).SetUint(uint64(x.U32))
 	v.Elem().Field(19).SetUint(x.U64)
 	v.Elem().Field(20).SetFloat(float64(x.F32))
+	if x.NS != nil {
+		v.Elem().Field(21).Set(reflect.ValueOf(x.NS))
+	}
+	if x.Orders != nil {
+		v.Elem().Field(22).Set(reflect.ValueOf(x.Orders))
+	}
+	if x.OrderMap != nil {
+		v.Elem().Field(23).Set(reflect.ValueOf(x.OrderMap))
+	}
+	if x.PPP != nil {
+		v.Elem().Field(24).Set(reflect.ValueOf(x.PPP))
+	}
 }
 
 func genVals(r *mon.Rand) *vals {
@@ -429,6 +464,10 @@ func genVals(r *mon.Rand) *vals {
 	x.U32 = []uint32{0, 1, 2, 3, 4294967295}[r.Intn(5)]
 	x.U64 = []uint64{0, 1, 2, 3, 1 << 40}[r.Intn(5)]
 	x.F32 = []float32{0, 1, -1, 0.5, 2.5, -0.25}[r.Intn(6)]
+	if r.Bool() {
+		ns := r.Str("abc", "", "bc")
+		x.NS = &ns
+	}
 	return x
 }
 
@@ -622,6 +661,17 @@ func work(w *mon.W) {
 		}
 		switch r.Intn(4) {
 		case 0:
+			x.Orders = []*order{nil}
+			x.OrderMap = map[string]*order{"k": nil}
+		case 1:
+			x.Orders = []*order{{}, nil, {Ship: &addr{"1"}, Express: true}}
+		case 2:
+			var p1 *inner
+			p2 := &p1
+			x.PPP = &p2
+		}
+		switch r.Intn(4) {
+		case 0:
 			x.B1, x.B2 = box{[]interface{}{1.0}}, box{[]interface{}{1.0}}
 		case 1:
 			x.B1, x.B2 = box{map[string]interface{}{"a": 1.0}}, box{3}
@@ -675,7 +725,8 @@ func hostileBool(r *mon.Rand, d int) string {
 			"(L)$[(A)$]==1", "(S)$[(A)$]=='a'", "(L)$[len((L)$)-1]>0", "(L)$[-1]==nil",
 			"(I)$", "!(I)$", "(I)$==(I)$", "(L)$", "!(M)$", "(I)$==(L)$",
 			"(PP.Y)$==nil", "(PP.Y)$>=0", "!(PP.Y)$",
-			"(B1)$==(B2)$", "(B1)$!=(B2)$", "in((B1)$,(B2)$,(B1)$)", "(B1.V)$==(B2.V)$")
+			"(B1)$==(B2)$", "(B1)$!=(B2)$", "in((B1)$,(B2)$,(B1)$)", "(B1.V)$==(B2.V)$",
+			"len((Orders)$)>=0", "(PPP.Y)$==nil", "(PPP.Y)$>0", "!regexp('^a',(P)$)", "regexp('b',(L)$)")
 	}
 	switch r.Intn(4) {
 	case 0:
